@@ -3,7 +3,7 @@ import itertools
 import json
 import random
 
-from vlib import core, bits_ctx as bc, coqlit as cl
+from vlib import core, bits_ctx as bc, coqlit as cl, enum_gen
 from vlib.core import Broken, Mismatch, Failing
 
 ID = 'C07'
@@ -17,6 +17,28 @@ From Omega Require Import L0Bits.Bits L3Context.Ctx L3Context.Prime L3Context.Na
 Open Scope string_scope.
 Open Scope Z_scope.
 '''
+
+# evaluation of the TRANSLATED enumeration code (gen/EnumGen.v): compared with
+# the real results EXACTLY (same list, same order, same order of keys).  The
+# table/entry encoding is the one of GenProofs/EnumBridge.v (repeated here so
+# that these cases do not depend on the bridge being provable).
+HEADER_GEN = HEADER + '''From OmegaGen Require EnumGen.
+Definition g_bool_bit (x : string) : bit := (x, 0%nat).
+Definition g_entry_of (x : ident) (d : vdecl) : EnumGen.entry bit :=
+  match d with
+  | DBool => EnumGen.mkEntry "bool" [] false (0, 0) 0
+  | DInt h => EnumGen.mkEntry "int" (bitnames x (DInt h)) (h_signed h) (h_dom h)
+                (h_width h)
+  end.
+Definition g_table_of (t : tbl) : list (string * EnumGen.entry bit) :=
+  map (fun xd => (fst xd, g_entry_of (fst xd) (snd xd))) t.
+Definition kv_eqb (a b : ident * val) : bool :=
+  String.eqb (fst a) (fst b) && val_eqb (snd a) (snd b).
+Definition exact_eqb : list fasgn -> list fasgn -> bool :=
+  list_eqb (list_eqb kv_eqb).
+Definition obit_eqb : option bool -> option bool -> bool := opt_eqb Bool.eqb.
+'''
+GEN_FUEL = 40
 
 APPLY_OPS = {
     'OpNot': ['not', '~', '!'],
@@ -32,7 +54,26 @@ APPLY_OPS = {
 
 def prove(ctx):
     with ctx.coq_lock():
-        ctx.prove('Properties/C07.v')
+        # tie T: regenerate gen/EnumGen.v from the current enumeration.py /
+        # bitvector.py, then re-prove GenProofs/EnumBridge.v (generated code =
+        # model) and the statements built on it
+        notes = enum_gen.ensure_enum(ctx)
+        ctx.prove_with_deps('Properties/C07.v')
+    ctx.extra['translation'] = dict(
+        sources=enum_gen.SOURCES, functions=enum_gen.FUNCTIONS,
+        generated='coq/gen/EnumGen.v', bridge='coq/GenProofs/EnumBridge.v',
+        notes=notes)
+    ctx.trusted.append(
+        'translator tie T: tools/py2coq_enum.py (enumeration._enumerate_int, '
+        '_take_product_iter, _bitfields_to_int_iter, bitvector._append_sign_bit '
+        '-> Gallina: generators = the list of yielded values in order, any '
+        'exception = None, recursion = Fixpoint on fuel with the results proved '
+        'for every sufficient fuel, dicts = insertion-ordered association '
+        'lists, table entries = records, bit values True/\'1\'/1 identified, '
+        'bit names abstract; fails closed; everything skipped is a note in '
+        'coq/gen/EnumGen.v and in the evidence); the translated functions are '
+        'also EVALUATED in Coq on every run and compared with the real results '
+        'exactly, order included')
     ctx.trusted.append(
         'dd.pick_iter enters the model as the list of cubes it returned; its '
         'contract (pairwise disjoint partial bit assignments over declared '
@@ -287,6 +328,102 @@ def run_ops(rng, inst, thorough):
         rec('bitfields_to_int_iter', None, cube, call(
             lambda: list(enum._bitfields_to_int_iter(cube, ctx.vars))))
     return ops
+
+
+def translated_groups(rng, insts, thorough):
+    """Cases that evaluate the TRANSLATED functions (gen/EnumGen.v) and compare
+    with the real results exactly (order of the list and of the keys).
+    Returns [(definitions, [bool terms])], [case descriptions]."""
+    import omega.symbolic.enumeration as enum
+    import omega.logic.bitvector as bv
+    F = f'{GEN_FUEL}%nat'
+    groups, cases = [], []
+
+    def obit(x):
+        if x is None:
+            return 'None'
+        return f'(Some {cl.b(x in (True, 1, "1"))})'
+    # _enumerate_int: every partial vector up to length 3, random longer ones
+    vecs = []
+    for n in range(0, 4):
+        vecs += [list(v) for v in itertools.product([None, False, True],
+                                                    repeat=n)]
+    for _ in range(120 if thorough else 30):
+        n = rng.randint(4, 8)
+        vecs.append([rng.choice([None, None, False, True, '0', '1'])
+                     for _ in range(n)])
+    terms = []
+    for i in range(0, len(vecs), 20):
+        chunk = vecs[i:i + 20]
+        real = [call(lambda v=v: list(enum._enumerate_int(list(v))))
+                for v in chunk]
+        lit = cl.lst([cl.lst([obit(b) for b in v]) for v in chunk])
+        exp = cl.lst(['None' if r[0] != 'ok' else f'(Some {cl.zs(r[1])})'
+                      for r in real])
+        terms.append(
+            f'list_eqb (opt_eqb (list_eqb Z.eqb)) (map (fun v => '
+            f'EnumGen.m_values (EnumGen.enumerate_int {F} v 0)) {lit}) {exp}')
+        cases.append(dict(kind='translated _enumerate_int', vectors=chunk))
+    # _append_sign_bit: every kind of hint, short bit fields
+    for kind in dict.fromkeys(k for k in bc.KINDS if k != 'bool'):
+        lo, hi = kind
+        w = bc.kind_width(kind)
+        d = dict(type='int', signed=(lo < 0 <= hi), dom=(lo, hi), width=w)
+        for n in sorted({0, 1, 2, w}):
+            bits = [rng.choice([None, False, True]) for _ in range(n)]
+
+            def run(bits=bits, d=d):
+                l = list(bits)
+                bv._append_sign_bit(l, 'x', d)
+                return l
+            r = call(run)
+            exp = ('None' if r[0] != 'ok'
+                   else f'(Some {cl.lst([obit(b) for b in r[1]])})')
+            ent = (f'(EnumGen.mkEntry "int" ([] : list bit) '
+                   f'{cl.b(d["signed"])} ({cl.z(lo)}, {cl.z(hi)}) {cl.z(w)})')
+            terms.append(
+                f'opt_eqb (list_eqb obit_eqb) (EnumGen.m_result '
+                f'(@EnumGen.append_sign_bit bit unit '
+                f'{cl.lst([obit(b) for b in bits])} "x" {ent})) {exp}')
+            cases.append(dict(kind='translated _append_sign_bit',
+                              bits=bits, entry=d))
+    # _take_product_iter
+    for _ in range(40 if thorough else 12):
+        nv = rng.randint(0, 3)
+        names = rng.sample(['x', 'y', 'z', 'w'], nv)
+        sets = {x: rng.sample(range(-4, 5), rng.randint(0, 3)) for x in names}
+        model = {b: rng.random() < 0.5
+                 for b in rng.sample(['p', 'q'], rng.randint(0, 2))}
+        r = call(lambda: list(enum._take_product_iter(dict(sets), model)))
+        exp = 'None' if r[0] != 'ok' else f'(Some {coq_fasgns(r[1])})'
+        slit = cl.lst([f'({bc.q(x)}, {cl.zs(v)})' for x, v in sets.items()])
+        terms.append(
+            f'opt_eqb exact_eqb (EnumGen.m_values (EnumGen.take_product_iter '
+            f'{F} {slit} {bc.coq_fasgn(model)})) {exp}')
+        cases.append(dict(kind='translated _take_product_iter', sets=sets,
+                          model=model))
+    groups.append(('', terms))
+    # _bitfields_to_int_iter on the cubes of the generated contexts
+    for i, inst in enumerate(insts):
+        p = f'g{i}_'
+        defs = f'Definition {p}t : tbl := {bc.coq_tbl(inst.ctx)}.'
+        ts = []
+        for o in inst.ops:
+            if o['op'] != 'bitfields_to_int_iter':
+                continue
+            res = o['res']
+            exp = ('None' if res[0] == 'err'
+                   else f'(Some {coq_fasgns(res[1])})')
+            ts.append(
+                f'opt_eqb exact_eqb (EnumGen.m_values '
+                f'(EnumGen.bitfields_to_int_iter bit bit_eqb g_bool_bit {F} '
+                f'{bc.coq_cube(o["args"], inst.name2pair)} '
+                f'(g_table_of {p}t))) {exp}')
+            cases.append(dict(kind='translated _bitfields_to_int_iter',
+                              decl=inst.decl, cube=o['args']))
+        if ts:
+            groups.append((defs, ts))
+    return groups, cases
 
 
 def run_single(inst, o):
@@ -753,7 +890,26 @@ def correspond(ctx):
         if not ok:
             mism.append(Mismatch('_enumerate_int differs from the model',
                                  dict(kind='enumerate', vectors=cases[j])))
-    ctx.cov['evaluations'] += len(res) + len(res2)
+    # the TRANSLATED functions, evaluated in Coq, against the real results
+    # (exact order).  gen/EnumGen.v is regenerated under the lock first: another
+    # run (other OMEGA_REPO) may have replaced it since prove().
+    ngen = 0
+    try:
+        with ctx.coq_lock():
+            enum_gen.ensure_enum(ctx)
+            ggroups, gcases = translated_groups(ctx.rng, insts, ctx.thorough)
+            res3 = ctx.eval_groups('enumgen', HEADER_GEN, ggroups)
+        ngen = len(res3)
+        for j, ok in enumerate(res3):
+            if not ok:
+                mism.append(Mismatch(
+                    'the translated code (gen/EnumGen.v) evaluated in Coq '
+                    'differs from the real result: ' + gcases[j]['kind'],
+                    gcases[j]))
+    except Broken as b:
+        mism.append(Mismatch('the translated enumeration code cannot be '
+                             f'evaluated: {b}', dict(kind='translated')))
+    ctx.cov['evaluations'] += len(res) + len(res2) + ngen
     ctx.cov['distinct_nontrivial'] += nontriv
     # explicit-set oracle (independent of the Coq model) on every run
     orc = 0
@@ -793,6 +949,7 @@ def correspond(ctx):
         contexts=len(insts), operations=len(res) - len(insts),
         by_operation=hist,
         rejected_by_assertion=rejected, enumerate_int_vectors=nvec,
+        translated_code_evaluations=ngen,
         oracle_crosschecked_contexts=orc, mismatches=len(mism),
         backends=['autoref', 'cudd'], max_bits=max_bits)
     ctx.extra['observation'] = (
